@@ -1,3 +1,99 @@
 import NeverModel.Model.Verify
+import NeverModel.Props.C03
+import NeverModel.Lemmas.VmEffect
+/-!
+# C07 — emitted code is well-formed on every path, executed or not
+
+`Ver.verify` (Model/Verify.lean) is the per-module certificate checker run on every module the real
+compiler emits (checks/c07.py).  Theorems here connect a successful verification with the rest of
+the development.  A full `verify_sound` (every execution of M-VM on a verified module keeps
+`sp = fp + nparams + h(ip)` and stays inside its frame) has NOT been completed; what is proved is the
+per-instruction half of it for the arithmetic families (`simple_effect_sound_arith`): the (pops, pushes)
+pair the verifier uses for those opcodes is what the M-VM handler does to `sp`, on every machine state.
+-/
 namespace Never.C07
+open Never Never.Vm Never.Ver
+
+/-- a verified module has a well-formed exception table -/
+theorem verified_table_wellformed (md : Module) (s : Summary) (h : verify md = .ok s) :
+    ExcWF md.exctab md.excCount = true := by
+  unfold verify at h
+  simp only [bind, Except.bind] at h
+  split at h
+  · cases h
+  · split at h
+    · cases h
+    · rename_i hwf
+      simpa using hwf
+
+/-- hence in a verified module every fault address (below the sentinel) has exactly one handler:
+the `assert(res != NULL)` of `exception_tab_search` cannot fire and the lookup stays in bounds -/
+theorem verified_every_fault_has_handler (md : Module) (s : Summary) (h : verify md = .ok s)
+    (ip : Nat) (hip : ip < 4294967295) : (excHandler md.exctab md.excCount ip).isSome = true := by
+  have hwf := verified_table_wellformed md s h
+  obtain ⟨i, e1, e2, _, _, _, _, _, hh⟩ := C03.exctab_search_correct md.exctab md.excCount ip hwf hip
+  simp [hh]
+
+/-- a verified module is not empty -/
+theorem verified_nonempty (md : Module) (s : Summary) (h : verify md = .ok s) : md.code.size ≠ 0 := by
+  unfold verify at h
+  simp only [bind, Except.bind] at h
+  split at h
+  · cases h
+  · rename_i hn; simpa using hn
+
+/-- the opcodes of the three typed arithmetic families (binary, unary, conversion) -/
+def isArith (op : Opc) : Bool := (binOpOf op).isSome || (unOpOf op).isSome || (convOf op).isSome
+
+/-- **Soundness of the verifier's stack-effect table on the arithmetic families.**  For every opcode of
+the typed binary / unary / conversion families (`isArith`; counted below) the verifier's `simpleEffect`
+is defined, and on *every* machine state on which the M-VM handler of that instruction completes, the
+frame registers and the stack size are untouched and `sp` moves by exactly `pushes - pops`, or the
+handler raised an exception (running = 2, `sp` unchanged: the exception path then resets the stack). -/
+theorem simple_effect_sound_arith (md : Module) (ins : Instr) (orc : Oracle) (ha : isArith ins.op = true) :
+    ∃ p q, simpleEffect ins = some (p, q) ∧
+      ∀ vm vm', (exec md ins orc).run vm = .ok ((), vm') →
+        vm'.fp = vm.fp ∧ vm'.pp = vm.pp ∧ vm'.stackSize = vm.stackSize ∧
+        (vm'.sp = vm.sp - (p : Int) + (q : Int) ∨ (vm'.sp = vm.sp ∧ vm'.running = 2)) := by
+  unfold isArith at ha
+  cases hb : binOpOf ins.op with
+  | some tb =>
+    obtain ⟨ty, bop⟩ := tb
+    refine ⟨2, 1, by simp [simpleEffect, hb], ?_⟩
+    intro vm vm' h
+    rw [exec_bin md ins orc ty bop hb] at h
+    obtain ⟨a, b, c, d⟩ := execBin_effect ty bop vm vm' h
+    refine ⟨a, b, c, ?_⟩
+    rcases d with d | d
+    · left; omega
+    · right; exact d
+  | none =>
+    cases hu : unOpOf ins.op with
+    | some tu =>
+      obtain ⟨ty, uop⟩ := tu
+      refine ⟨1, 1, by simp [simpleEffect, hb, hu], ?_⟩
+      intro vm vm' h
+      rw [exec_un md ins orc ty uop hb hu] at h
+      obtain ⟨a, b, c, d⟩ := execUn_effect ty uop vm vm' h
+      refine ⟨a, b, c, ?_⟩
+      rcases d with d | d
+      · left; omega
+      · right; exact d
+    | none =>
+      cases hc : convOf ins.op with
+      | some tc =>
+        obtain ⟨src, dst⟩ := tc
+        refine ⟨1, 1, by simp [simpleEffect, hb, hu, hc], ?_⟩
+        intro vm vm' h
+        rw [exec_conv md ins orc src dst hb hu hc] at h
+        obtain ⟨a, b, c, d⟩ := execConv_effect src dst vm vm' h
+        refine ⟨a, b, c, ?_⟩
+        rcases d with d | d
+        · left; omega
+        · right; exact d
+      | none => simp [hb, hu, hc] at ha
+
+/-- how many opcodes that theorem covers (of `Opc.all`) — not vacuous -/
+example : (Opc.all.toList.filter isArith).length = 77 := by decide +kernel
+
 end Never.C07
